@@ -323,3 +323,28 @@ func (c *Check) finish(verifDir string, t0 time.Time, seed int, onlyKey string) 
 	}
 	return 0
 }
+
+// shareRules evaluates another property's check and copies the obligations of
+// the named rules (and any unresolved anchor / engine problem) into c under
+// asRule. Used where one structural rule is a necessary condition of two
+// properties.
+func shareRules(c *Check, fn func(*Check), rules []string, asRule, prefix string) int {
+	sub := newCheck(c.Prop, c.P, c.Tier)
+	sub.depth = c.depth
+	fn(sub)
+	want := map[string]bool{}
+	for _, r := range rules {
+		want[r] = true
+	}
+	n := 0
+	for _, o := range sub.Obls {
+		if want[o.Rule] || (!o.OK && (o.Rule == "anchor" || o.Rule == "engine")) {
+			n++
+			ob := c.add(asRule, prefix+strings.TrimPrefix(o.Key, o.Rule+"|"), o.Desc, o.OK, o.Where, o.Detail...)
+			ob.Undecided = o.Undecided
+		}
+	}
+	c.Searches += sub.Searches
+	c.States += sub.States
+	return n
+}
